@@ -181,6 +181,7 @@ CONCRETE = {
     "obo": {0: "?", 1: "obo/", 2: "OBO/", 3: "GO_", 4: ":", 5: "/", 6: "Straße", 7: "s", 8: "CHEBI_", 9: "zz", 58: ":", 64: "@", 100: "w3id.org/"},
     "tokens": {0: "?", 1: "http://purl.obolibrary.org/obo/", 2: "HTTP://PURL.OBOLIBRARY.ORG/OBO/", 3: "GO_", 4: "~", 5: "/",
                6: "Straße", 7: "s", 8: "CHEBI_", 9: "zz", 58: ":", 64: "@", 100: "https://w3id.org/"},
+    "case": {0: "?", 1: "ns", 2: "NS", 3: "Ns", 4: ":", 5: "/", 6: "ß", 7: "s", 8: "nS", 9: "d", 58: ":", 64: "@", 100: "u/"},
     "dcolon": {0: "?", 1: "x", 2: "X", 3: "y", 4: "::", 5: "/", 6: "ß", 7: "s", 8: "c", 9: "d", 58: ":", 64: "@", 100: "u_"},
 }
 # models whose DefaultDelim is 58 must keep ":" as the default delimiter; models using 4 as the
@@ -244,10 +245,19 @@ def run_ops(args):
     w = impl.World(I, rng, probe_cap=opts.get("probe_cap", 24), full_n=opts.get("full_n", 5),
                    extra_chars=opts.get("extra_chars", ""), probe_inputs=opts.get("probe_inputs", True),
                    methods=opts.get("methods"))
-    nconv_before_other = 0
+    # strings under prefixes that LATER operations will register are probed from the start (query -> mutate -> query)
+    future = []
+    for op in ops:
+        r = op.get("rec") if op["k"] == "add" else None
+        if r:
+            for u in [r["u"], *r.get("us", [])][:2]:
+                future += [u + "1", u]
+            for p in [r["p"], *r.get("ps", [])][:2]:
+                future.append(p + ":" + "1")
+    future = list(dict.fromkeys(future))[:12]
     for op in ops:
         k = op["k"]
-        extra = op.get("extra", ())
+        extra = list(op.get("extra", ())) + future
         if op.get("i") == "last":
             op = dict(op, i=len(w.convs))
             if op["i"] == 0:
@@ -279,6 +289,9 @@ def run_ops(args):
                          "pat": r.pattern} for r in c.records]
                 rng.shuffle(recs)
                 w.new(recs, c.delimiter, True, extra)
+        elif k == "reuse":
+            if op["i"] <= len(w.convs):
+                w.reuse(op["i"], op.get("recs", []), extra)
         elif k == "probe":
             w.probe([i for i in op["is"] if i <= len(w.convs)], extra)
         else:
